@@ -1,3 +1,91 @@
-(* Proofs about the file pool model. *)
-From Coq Require Import Lia ZifyBool ZifyN ZifyNat.
+(* Proofs about the file pool model: the statements restated in Properties.v. *)
+From Coq Require Import Lia ZifyBool ZifyNat ZifyN Permutation.
 From VF Require Import Pool.Model Pool.Spec.
+From VF Require Export Pool.ProofsAlloc Pool.ProofsInv.
+
+(* ---- sectors_partition ----------------------------------------------------------- *)
+
+Definition partition_ok (c : cfg) (st : state) : Prop :=
+  NoDup (held st) /\
+  (forall s, In s (held st) -> 1 <= s <= c_nsec c) /\
+  (forall i, i < c_nsec c -> (nth i (a_free (st_al st)) false = true <-> ~ In (S i) (held st))) /\
+  length (a_free (st_al st)) = c_nsec c /\
+  a_panic (st_al st) = false.
+
+Lemma sectors_partition_lemma c ops : 0 < c_ss c -> partition_ok c (run c (init c) ops).
+Proof.
+  intros Hss. destruct (run_inv c ops Hss (init c) (init_inv c)) as [(H1 & H2 & H3 & H4 & H5) _ _ _ _ _].
+  unfold partition_ok. tauto.
+Qed.
+
+(* ---- all_closed_all_free ----------------------------------------------------------- *)
+
+Lemma all_true_repeat (l : list bool) n : length l = n -> (forall i, i < n -> nth i l false = true) -> l = repeat true n.
+Proof.
+  revert n. induction l as [|b tl IH]; intros n Hl H; cbn in Hl; subst n; [reflexivity|].
+  cbn [repeat]. f_equal.
+  - apply (H 0). lia.
+  - apply IH; auto. intros i Hi. apply (H (S i)). lia.
+Qed.
+
+Lemma all_closed_all_free_lemma c ops : 0 < c_ss c ->
+  let st := run c (init c) ops in
+  st_files st = repeat None nslots -> st_raw st = [] ->
+  a_free (st_al st) = repeat true (c_nsec c).
+Proof.
+  intros Hss st Hf Hr. destruct (sectors_partition_lemma c ops Hss) as (_ & _ & H3 & H4 & _).
+  fold st in H3, H4. apply all_true_repeat; auto.
+  intros i Hi. apply H3; auto. unfold held. rewrite Hf, Hr. cbn. tauto.
+Qed.
+
+(* ---- quota_conserved --------------------------------------------------------------- *)
+
+Lemma quota_conserved_lemma c ops : 0 < c_ss c ->
+  let st := run c (init c) ops in
+  (st_remf st + nopen (st_files st) = c_maxfiles c)%N /\
+  (st_remb st + sizes (st_files st) = c_maxbytes c)%N.
+Proof.
+  intros Hss st. destruct (run_inv c ops Hss (init c) (init_inv c)) as [_ _ _ _ H1 H2]. auto.
+Qed.
+
+Definition lens_of (files : list (option file)) : list (option N) :=
+  map (fun f => match f with Some f0 => Some (f_size f0) | None => None end) files.
+
+Lemma count_open_lens files : count_open (lens_of files) = nopen files.
+Proof.
+  induction files as [|[f|] tl IH]; [reflexivity| |]; unfold count_open, nopen, lens_of in *;
+    cbn [map fold_right]; rewrite IH; reflexivity.
+Qed.
+
+Lemma sum_lens_sizes files : sum_lens (lens_of files) = sizes files.
+Proof.
+  induction files as [|[f|] tl IH]; [reflexivity| |]; unfold sum_lens, sizes, lens_of in *;
+    cbn [map fold_right fsize]; rewrite IH; reflexivity.
+Qed.
+
+(* the monitor's quota predicate accepts every step of every model trace *)
+Lemma observe_quota c st : Inv c st -> forall k, p_quota c k (observe st) = Good tt.
+Proof.
+  intros [_ _ _ _ Hf Hb] k. unfold p_quota, observe. cbn [ob_remf ob_lens ob_remb].
+  fold (lens_of (st_files st)). rewrite count_open_lens, sum_lens_sizes.
+  replace (st_remf st + nopen (st_files st) =? c_maxfiles c)%N with true by lia. cbn [check bind].
+  destruct (st_remf st =? 0)%N; [reflexivity|]. replace (st_remb st + sizes (st_files st) =? c_maxbytes c)%N with true by lia.
+  reflexivity.
+Qed.
+
+Lemma trace_inv c : 0 < c_ss c -> forall ops st s, Inv c st -> In s (trace c st ops) ->
+  exists st', Inv c st' /\ t_obs s = observe st'.
+Proof.
+  intros Hss. induction ops as [|o tl IH]; intros st s HI; cbn [trace]; [intros []|].
+  destruct (step c st o) as [[st' x] evs] eqn:E. pose proof (step_inv _ _ _ _ _ _ Hss HI E) as HI'.
+  intros [<-|Hin].
+  - exists st'. auto.
+  - destruct x; try (eapply IH; eauto). destruct Hin.
+Qed.
+
+Lemma quota_monitor_lemma c ops : 0 < c_ss c ->
+  forall s, In s (trace c (init c) ops) -> p_quota c (op_k (t_op s)) (t_obs s) = Good tt.
+Proof.
+  intros Hss s Hin. destruct (trace_inv c Hss ops (init c) s (init_inv c) Hin) as (st' & HI & ->).
+  now apply observe_quota.
+Qed.
